@@ -13,6 +13,7 @@ mod util;
 mod c01;
 mod c02;
 mod c03;
+mod c06;
 mod c07;
 mod chan;
 
@@ -63,6 +64,7 @@ fn main() {
             "C01" => c01::replay(&v["replay"]),
             "C02" => c02::replay(&v["replay"]),
             "C03" => c03::replay(&v["replay"]),
+            "C06" => c06::replay(&v["replay"]),
             "C07" => c07::replay(&v["replay"]),
             _ => {
                 eprintln!("no replay for {}", id);
@@ -84,6 +86,7 @@ fn main() {
             "C01" => c01::run(thorough),
             "C02" => c02::run(thorough),
             "C03" => c03::run(thorough),
+            "C06" => c06::run(thorough),
             "C07" => c07::run(thorough),
             other => {
                 eprintln!("unknown check {}", other);
